@@ -115,7 +115,7 @@ var vSymCells int
 // vCellText: 0..2 symbolic bytes over the alphabet that matters for pipe tables.
 func vCellText() string {
 	if vSymCells <= 0 {
-		return "x|y"
+		return "é|y" // a non-ASCII character and a pipe
 	}
 	vSymCells--
 	n := vAnyIntIn(0, 2)
